@@ -1471,6 +1471,7 @@ def _add_headers_to_scope(
     cookies: Optional[CookieArg],
 ) -> None:
     found_ua = False
+    found_host = False
     prepared_headers: List[Iterable[bytes]] = []
 
     if headers:
@@ -1482,6 +1483,7 @@ def _add_headers_to_scope(
         for name, value in items:
             n = name.lower().encode('latin1')
             found_ua = found_ua or (n == b'user-agent')
+            found_host = found_host or (n == b'host')
 
             # NOTE(kgriffs): Value is stripped if not empty, otherwise defaults
             #   to b'' to be consistent with _add_headers_to_environ().
@@ -1498,7 +1500,9 @@ def _add_headers_to_scope(
         value = str(content_length).encode()
         prepared_headers.append((b'content-length', value))
 
-    if http_version != '1.0':
+    # NOTE: Host is a singleton header; do not override the one passed in
+    #   explicitly, the same way create_environ() honours it.
+    if http_version != '1.0' and not found_host:
         host_header = host
 
         if scheme == 'https':
